@@ -103,12 +103,15 @@ structure Reply where
 deriving DecidableEq, Repr, Inhabited
 
 /-- go-smtp `writeResponse`: missing enhanced code becomes `class.0.0` for classes 2,4,5. -/
+def notSet (e : Ench) : Bool := e.cls == 0 && e.subj == 0 && e.det == 0
+
 def wireEnch (r : Reply) : Option Ench :=
-  match r.ench with
-  | some e => some e
-  | none =>
+  let derived : Option Ench :=
     let cat := r.code / 100
     if cat == 2 || cat == 4 || cat == 5 then some ⟨cat, 0, 0⟩ else none
+  match r.ench with
+  | some e => if notSet e then derived else some e     -- EnhancedCode{0,0,0} == EnhancedCodeNotSet
+  | none => derived
 
 /-- The ASCII filter of `wrapErr`: every code point that is not ASCII (≥ U+0080) becomes `?`. -/
 def mangle (cps : List Nat) : List Nat :=
@@ -118,6 +121,17 @@ def mangleMsg : Msg → Msg
   | .text cps => .text (mangle cps)
   | m => m
 
+def msgOf : Option (List Nat) → Msg
+  | some m => .text m
+  | none => .generic
+
+/-- an annotation without an enhanced code ({0,0,0}, e.g. a relayed reply of a server that sends
+none) does not override the class-derived default -/
+def pickEnch (f : Option Ench) (dflt : Ench) : Ench :=
+  match f with
+  | some en => if notSet en then dflt else en
+  | none => dflt
+
 /-- `(*Endpoint).wrapErr` (nil error excluded; message-id suffix and metrics omitted —
 the suffix is ASCII). -/
 def wrapErr (mangleUTF8 : Bool) (e : Err) : Reply :=
@@ -125,7 +139,7 @@ def wrapErr (mangleUTF8 : Bool) (e : Err) : Reply :=
   let code0 := if isTemporary e then 451 else 554
   let code1 := (codeField e).getD code0
   let ench1 := enchField e
-  let msg1  := match msgField e with | some m => Msg.text m | none => Msg.generic
+  let msg1  := msgOf (msgField e)
   let r : Reply := match e with
     | .rawSmtp c en m => ⟨c, some en, .text m⟩
     | _ => ⟨code1, ench1, msg1⟩
@@ -137,10 +151,10 @@ def toSMTPErr (e : Err) : Reply :=
   let code0 := if t then 451 else 554
   let ench0 : Ench := if t then ⟨4, 0, 0⟩ else ⟨5, 0, 0⟩
   let code1 := (codeField e).getD code0
-  let ench1 := (enchField e).getD ench0
-  let msg1  := match msgField e with | some m => Msg.text m | none => Msg.generic
+  let ench1 := pickEnch (enchField e) ench0
+  let msg1  := msgOf (msgField e)
   match e with
-  | .rawSmtp c en m => ⟨c, some en, .text m⟩
+  | .rawSmtp c en m => ⟨c, some (pickEnch (some en) ench0), .text m⟩   -- deprecated plain go-smtp error
   | _ => ⟨code1, some ench1, msg1⟩
 
 /-- The queue's retry decision for an error (before the attempt bound). -/
@@ -160,9 +174,19 @@ instance (r : Reply) : Decidable (Coherent r) := by
     else
       exact isFalse (by intro ⟨en', h1, h3⟩; simp at h1; subst h1; exact h2 h3)
 
+/-- A stored error (queue metadata, failure report `Status:` field) is coherent when its enhanced
+code is present and of the class of the basic code — nothing fills in a missing one there. -/
+def StoredCoherent (r : Reply) : Prop :=
+  ∃ en, r.ench = some en ∧ en.cls = r.code / 100 ∧ (en.cls = 4 ∨ en.cls = 5)
+
 /-- A (code, enhanced code) annotation is class-coherent. -/
 def pairOk (code : Nat) (en : Ench) : Bool :=
   en.cls == code / 100 && (en.cls == 4 || en.cls == 5)
+
+/-- An annotation as maddy builds or relays them: class-coherent, or a 4yz/5yz basic code with
+the enhanced code left unset. -/
+def annOk (code : Nat) (en : Ench) : Bool :=
+  pairOk code en || (notSet en && (code / 100 == 4 || code / 100 == 5))
 
 /-- Every annotation carried by the value is itself class-coherent, and annotations that
 override only one of the two codes do not occur (maddy's own field wrappers never carry
@@ -171,13 +195,13 @@ def LeavesCoherent : Err → Prop
   | .plain => True
   | .deadline => True
   | .net _ => True
-  | .smtp code en _ => pairOk code en = true
-  | .smtpWrap code en _ i => pairOk code en = true ∧ LeavesCoherent i
+  | .smtp code en _ => annOk code en = true
+  | .smtpWrap code en _ i => annOk code en = true ∧ LeavesCoherent i
   | .withTemp _ i => LeavesCoherent i
   | .withFields none none _ i => LeavesCoherent i
-  | .withFields (some c) (some en) _ i => pairOk c en = true ∧ LeavesCoherent i
+  | .withFields (some c) (some en) _ i => annOk c en = true ∧ LeavesCoherent i
   | .withFields _ _ _ _ => False
-  | .rawSmtp code en _ => pairOk code en = true
+  | .rawSmtp code en _ => annOk code en = true
 
 /-- The temporariness the retry logic sees agrees with the class of the SMTP annotation
 that the reply conversion sees (when there is one).  maddy never wraps an annotated
